@@ -271,7 +271,7 @@ func c29Run(line string) string {
 		w.voff += d
 		return "ok"
 	case "cleanup":
-		w.f.VerifC29Cleanup(time.Now())
+		w.f.VerifC29Cleanup()
 		return fmt.Sprintf("n=%d", w.f.SleepCommandSeenCacheSize())
 	case "keys":
 		var items []string
@@ -291,8 +291,10 @@ func c29Run(line string) string {
 	return "bad-op"
 }
 
-// c29Gen simulates just enough of the cache (which keys are present, when they were stamped) to
-// keep the script inside what the model's engine supports after a non-forced size eviction.
+// c29Gen: (a) random histories with MaxSeenCacheSize 0 (every cleanup evicts everything: forced,
+// deterministic) or 10000 (never evicts); (b) eviction cases of a fixed shape in which the
+// generator knows the cache content (only fresh, valid, in-window commands enter it): the cache
+// at, one over and several over the cap, a cleanup, then replays of the cached commands.
 func c29Gen(w *bufio.Writer, seed int64, tier string) {
 	r := newRng(seed)
 	n := 250
@@ -300,26 +302,46 @@ func c29Gen(w *bufio.Writer, seed int64, tier string) {
 		n = 6000
 	}
 	sigs := []string{"valid", "valid", "valid", "valid", "zero", "bad", "otherkey", "wrongorigin", "wrongid", "wrongts"}
-	type ent struct {
-		at   int64
-		from int
-	}
+	type cmdT struct{ k, origin, id, ts, sig string }
 	for i := 0; i < n; i++ {
 		W := int64(r.pick(3, 9, 9, 30, 300))
-		ttlMs := []int64{W*1000 + 500, W*1000 + 500, 2*W*1000 + 500, 3*W*1000 + 500, 1500, 2*W*1000 - 500}[r.intn(6)]
-		maxSize := r.pick(0, 1, 2, 3, 5, 100, 10000, 10000)
+		ttlMs := []int64{W*1000 + 500, W*1000 + 500, 2*W*1000 + 500, 3*W*1000 + 500, 1500, 2*W*1000 - 500, 2 * W * 1000}[r.intn(7)]
 		signing := !r.chance(12)
+		if r.chance(25) { // (b) eviction case
+			m := r.pick(1, 2, 3, 5, 8)
+			k := m + r.pick(0, 1, 1, 2, 4, 9)
+			fmt.Fprintf(w, "reset 1 %d %d %d\n", W, ttlMs, m)
+			var cached []cmdT
+			for j := 0; j < k; j++ {
+				c := cmdT{r.pickS("s", "w"), strconv.Itoa(r.pick(4, 5)), strconv.Itoa(100 + j), "r0", "valid"}
+				cached = append(cached, c)
+				fmt.Fprintf(w, "d %s %d %s %s %s %s -\n", c.k, 1+r.intn(3), c.origin, c.id, c.ts, c.sig)
+				if r.chance(40) { // forged traffic in between never enters the cache
+					fmt.Fprintf(w, "d s %d 4 %d r0 %s -\n", 1+r.intn(3), 500+j, r.pickS("bad", "zero", "otherkey", "wrongid"))
+				}
+			}
+			if r.chance(50) {
+				fmt.Fprintf(w, "keys\n")
+			}
+			fmt.Fprintf(w, "cleanup\n")
+			if k <= m && r.chance(50) {
+				fmt.Fprintf(w, "keys\n")
+			}
+			for j := 0; j < 1+r.intn(3); j++ {
+				c := cached[r.intn(len(cached))]
+				fmt.Fprintf(w, "d %s %d %s %s %s %s -\n", c.k, 1+r.intn(3), c.origin, c.id, c.ts, c.sig)
+			}
+			continue
+		}
+		maxSize := r.pick(0, 10000, 10000, 10000)
 		fmt.Fprintf(w, "reset %d %d %d %d\n", c29B2i(signing), W, ttlMs, maxSize)
 		steps := 3 + r.intn(10)
 		if r.chance(10) {
-			steps = 30 + r.intn(60) // long history; cache at / over the cap
+			steps = 30 + r.intn(60) // long history
 		}
-		cache := map[string]*ent{}
 		var vnow int64
-		type cmdT struct{ k, origin, id, ts, sig string }
 		var pool []cmdT
-		uncertain := false
-		for s := 0; s < steps && !uncertain; s++ {
+		for s := 0; s < steps; s++ {
 			switch x := r.intn(100); {
 			case x < 62: // delivery
 				var c cmdT
@@ -340,49 +362,14 @@ func c29Gen(w *bufio.Writer, seed int64, tier string) {
 					}
 					pool = append(pool, c)
 				}
-				from := 1 + r.intn(3)
 				seen := r.pickS("-", "-", "-", "1", "2.3", "0", "4")
-				fmt.Fprintf(w, "d %s %d %s %s %s %s %s\n", c.k, from, c.origin, c.id, c.ts, c.sig, seen)
-				key := c.origin + ":" + c.id
-				if e, ok := cache[key]; ok {
-					if e.from != from {
-						e.at = vnow
-					}
-				} else {
-					cache[key] = &ent{vnow, from}
-				}
+				fmt.Fprintf(w, "d %s %d %s %s %s %s %s\n", c.k, 1+r.intn(3), c.origin, c.id, c.ts, c.sig, seen)
 			case x < 76:
-				d := int64(r.pick(3, 3, 6, int(W), int(W)+3, int(2*W), int(3*W)+3))
+				d := int64(r.pick(3, 3, 6, int(W), int(W)+3, int(2*W), int(2*W)+3, int(3*W)+3))
 				fmt.Fprintf(w, "adv %d\n", d)
 				vnow += d
 			case x < 88:
 				fmt.Fprintf(w, "cleanup\n")
-				for k, e := range cache {
-					if (vnow-e.at)*1000 > ttlMs {
-						delete(cache, k)
-					}
-				}
-				excess := len(cache) - maxSize
-				if excess >= len(cache) && excess > 0 {
-					cache = map[string]*ent{}
-				} else if excess > 0 {
-					// not forced: probe a few of the pre-eviction keys (and a fresh one), then end the case
-					uncertain = true
-					var keys []string
-					for k := range cache {
-						keys = append(keys, k)
-					}
-					sort.Strings(keys)
-					for j := 0; j < 1+r.intn(3); j++ {
-						k := keys[r.intn(len(keys))]
-						for _, c := range pool {
-							if c.origin+":"+c.id == k {
-								fmt.Fprintf(w, "d %s %d %s %s %s %s -\n", c.k, 1+r.intn(3), c.origin, c.id, c.ts, c.sig)
-								break
-							}
-						}
-					}
-				}
 			case x < 94:
 				fmt.Fprintf(w, "keys\n")
 			default:
